@@ -116,8 +116,8 @@ def obligations(tier):
             ("identity", "assert_is / assert_is_not"), ("instance", "assert_is_instance / not_is_instance")]
     for f, w in kern:
         obs.append(Ob("C07." + f, K, f, 200, what=w + ": silent exactly when the Python relation holds; negations complementary"))
-    for part in ("0,0", "0,1", "1,0", "1,1"):
-        obs.append(Ob("C07.eq_grid", K, "eq_grid", 300, part=part, what="IEEE tolerance grid (left operand float|int, nested or not): equal iff |a-b| < delta, both orders, assert_equal/not_equal agree"))
+    for part in ("0,0", "0,1", "1,0", "1,1", "0,2", "1,2", "0,3", "0,4"):
+        obs.append(Ob("C07.eq_grid", K, "eq_grid", 300, part=part, what="IEEE tolerance grid (left operand float|int; raw / in a list / dict value / dict in a list / tuple in a dict): equal iff |a-b| < delta, both orders, assert_equal/not_equal agree"))
     obs.append(Ob("C07.order_reach", K, "order_reach", 60, expect="refute", what="twin: assert_less fails for some doubles"))
     for k in range(12):
         obs.append(Ob("C07.public_rel", P, "public_rel", 120, part=str(k), what="public assert call, raw/proxied operands: truthy and recorded as triggered exactly when the relation does not hold"))
